@@ -86,7 +86,7 @@ func main() {
 	viols := &violSet{}
 	budget := 200 * time.Second
 	if r.Thorough() {
-		budget = 14*time.Minute + 30*time.Second
+		budget = 19*time.Minute + 30*time.Second
 	}
 	if b := os.Getenv("C05_BUDGET_S"); b != "" { // development aid
 		var n int
@@ -107,7 +107,7 @@ func main() {
 	parts := []part{
 		{"probes", partProbes, 5, 5},
 		{"treap", partTreap, 30, 90},
-		{"seq", partSeq, 110, 420},
+		{"seq", partSeq, 110, 720},
 		{"fault", partFault, 25, 120},
 		{"crash", partCrash, 25, 240},
 		{"sched", partSched, 100, 600},
